@@ -451,9 +451,9 @@ func c15Setup(scratch string) (*c15Env, error) {
 func c15Check(pc *propCfg, tier string, seed int64) int {
 	t0 := time.Now()
 	fmt.Printf("VERIF_SEED=%d property=C15 tier=%s repo=%s\n", seed, tier, repoTreeHash())
-	nWorlds, mapSeeds := 10, 8
+	nWorlds, mapSeeds := 12, 8
 	if tier == "thorough" {
-		nWorlds, mapSeeds = 120, 64
+		nWorlds, mapSeeds = 150, 48
 	}
 	scratch, err := os.MkdirTemp("", "verif-c15-")
 	if err != nil {
